@@ -1,13 +1,44 @@
 (* C17 correspondence: race-detector scenarios run by harness/c17 against the real services. *)
-From Verif Require Export Lib.Base Lib.Lockset Gen.C17_Extracted.
+From Verif Require Export Lib.Base Lib.Lockset Lib.LocksetX Gen.C17_Extracted Model.C17_Snapshot.
 From Coq Require Export String.
 
 Record case := {
   c_id : N;
   c_service : string;       (* name of the extracted service the scenario exercises *)
   c_scenario : string;
-  c_race : bool             (* the Go race detector reported a data race *)
+  c_race : bool;            (* the Go race detector reported a data race (or the runtime aborted on concurrent map access) *)
+  c_hang : bool;            (* the scenario did not finish: goroutines blocked for ever (a leaked / re-acquired lock) *)
+  c_crash : bool;           (* a panic raised in Vouch's own code aborted the scenario: an overlap showed an operation
+                               a state that no sequential order of the operations produces *)
+  (* account-churn scenarios only (empty otherwise): refreshes alternate between the listings while lookups run *)
+  c_listings : list (list N);           (* the keys (= validator indices) the wallets list, per phase *)
+  c_active : list N;                    (* validators that the validators-manager mock reports as validating *)
+  c_requested : list N;                 (* indices asked for by the ByIndex lookups *)
+  c_answers : list (list (N * bool));       (* distinct answers of ValidatingAccountsForEpoch: (validator, account present), sorted *)
+  c_answers_idx : list (list (N * bool))    (* distinct answers of ValidatingAccountsForEpochByIndex *)
 }.
+
+(* ---- snapshot model (Model/C17_Snapshot.v) on the churn data ---- *)
+Definition memN (x : N) (l : list N) : bool := existsb (N.eqb x) l.
+
+(* the sequential lookup of the model on the store of one refresh, projected as the harness projects the
+   implementation's answer: validating validators only, (validator, account present), sorted by validator *)
+Definition model_answer (active : list N) (only : option (list N)) (listing : list N) : list (N * bool) :=
+  let st := install (map (fun k => (k, k)) listing) in
+  let r := filter (fun p => memN (fst p) active && match only with Some req => memN (fst p) req | None => true end) (lookup_at st) in
+  sort_by fst (map (fun p => (fst p, match snd p with Some _ => true | None => false end)) r).
+
+Definition answer_eqb (a b : list (N * bool)) : bool :=
+  list_eqb (fun p q => (fst p =? fst q) && Bool.eqb (snd p) (snd q)) a b.
+
+(* every observed answer is the model's answer on the store of ONE refresh (C17_snapshot_lookup_sequential) *)
+Definition answers_agree (c : case) : bool :=
+  forallb (fun a => existsb (fun l => answer_eqb a (model_answer (c_active c) None l)) (c_listings c)) (c_answers c) &&
+  forallb (fun a => existsb (fun l => answer_eqb a (model_answer (c_active c) (Some (c_requested c)) l)) (c_listings c)) (c_answers_idx c).
+
+(* on the observed answers alone: no answer names a validator without its account *)
+Definition answers_whole (c : case) : bool :=
+  forallb (forallb snd) (c_answers c) && forallb (forallb snd) (c_answers_idx c).
 
 Definition service_ok (name : string) : bool :=
   match find (fun '(n, _, _, _, _) => String.eqb n name) services with
@@ -15,11 +46,28 @@ Definition service_ok (name : string) : bool :=
   | None => false
   end.
 
-(* model and implementation agree: a service the analysis accepts shows no race in its scenario *)
-Definition agree (c : case) : bool := implb (service_ok (c_service c)) (negb (c_race c)).
+(* the property on the observed run alone: no unsynchronised conflicting access was observed,
+   every operation finished (no lock was left held), and no operation panicked on what it saw.
+   (The skeleton model has no values: it predicts races and hangs, not crashes; `agree` is silent on c_crash.) *)
+Definition P_b (c : case) : bool := negb (c_race c) && negb (c_hang c) && negb (c_crash c) && answers_whole c.
 
-(* the property on the observed run alone *)
-Definition P_b (c : case) : bool := negb (c_race c).
+Definition service_known (name : string) : bool :=
+  existsb (fun '(n, _, _, _, _) => String.eqb n name) services.
+
+Definition service_order_ok (name : string) : bool :=
+  match find (fun '(n, _, _, _, _) => String.eqb n name) services with
+  | Some (_, g, e, _, _) => lock_order_ok g e
+  | None => false
+  end.
+
+(* model and implementation agree: a service the analysis accepts (race free and lock balanced in
+   every interleaving, C17_tree_dynamic_race_free_partial) shows no race in its scenario, and if its
+   lock order is consistent too (C17_tree_deadlock_free_partial) no hang either;
+   a scenario naming a service that is not extracted never agrees *)
+Definition agree (c : case) : bool :=
+  implb (service_ok (c_service c)) (negb (c_race c)) &&
+  implb (service_ok (c_service c) && service_order_ok (c_service c)) (negb (c_hang c)) &&
+  service_known (c_service c) && answers_agree c.
 
 Definition mismatches (cs : list case) : list N := failing_ids c_id agree cs.
 Definition violations (cs : list case) : list N := failing_ids c_id P_b cs.
@@ -28,4 +76,53 @@ Definition violations (cs : list case) : list N := failing_ids c_id P_b cs.
 Definition tree_report :=
   map (fun '(n, g, e, sk, sg) =>
          let '(bad, cf) := report sk sg g e in
-         (n, analysis_ok sk sg g e, bad, nodup N.eq_dec (map (fun '((f1, _, _, _), _) => f1) cf))) services.
+         (n, analysis_ok sk sg g e, bad, nodup N.eq_dec (map (fun '((f1, _, _, _), _) => f1) cf),
+          discipline_ok sk sg (graph_accesses g e), lock_order_ok g e)) services.
+
+(* the (field, mutex) guard pairs of every service *)
+Definition tree_guards :=
+  map (fun '(n, g, e, _, _) => (n, guard_table (graph_accesses g e))) services.
+
+(* ------------------------------------------------------------------------------------------ *)
+(* detailed report for bin/c17-report: node indices (mapped to file:line by the translator's meta file) *)
+
+Fixpoint accesses_idx (ls : assignment) (n : nat) (g : graph) : list (nat * access) :=
+  match g with
+  | [] => []
+  | nd :: g' =>
+      match n_instr nd, nth n ls None with
+      | IAcc f w, Some L => (n, (f, w, L, n_owner nd)) :: accesses_idx ls (S n) g'
+      | _, _ => accesses_idx ls (S n) g'
+      end
+  end.
+
+Definition conflicts_idx (sk : field -> bool) (sg : nat -> bool) (g : graph) (e : list nat) : list (nat * nat) :=
+  let A := accesses_idx (infer g e) 0 g in
+  flat_map (fun a1 => map (fun a2 => (fst a1, fst a2))
+                        (filter (fun a2 => (fst a1 <=? fst a2)%nat && negb (conflict_free sk sg (snd a1) (snd a2))) A)) A.
+
+Fixpoint order_bad_from (rk : list (mutex * nat)) (ls : assignment) (n : nat) (g : graph) : list nat :=
+  match g with
+  | [] => []
+  | nd :: g' =>
+      match n_instr nd, nth n ls None with
+      | ILock m _, Some L =>
+          if forallb (fun p => (rank_of rk (fst p) <? rank_of rk m)%nat) L then order_bad_from rk ls (S n) g'
+          else n :: order_bad_from rk ls (S n) g'
+      | _, _ => order_bad_from rk ls (S n) g'
+      end
+  end.
+
+Definition undisciplined (sk : field -> bool) (sg : nat -> bool) (A : list access) : list field :=
+  filter (fun f => negb (sk f || confined sg A f || existsb (fun m => writes_guarded A f m) (mutexes_of A))) (fields_of A).
+
+(* per service: accepted?, nodes whose lock-set check fails (with the lock set inferred on entry),
+   conflicting access pairs, fields without a write guard, acquisitions against the lock order *)
+Definition tree_details :=
+  map (fun '(n, g, e, sk, sg) =>
+         let ls := infer g e in
+         (n, analysis_ok sk sg g e && discipline_ok sk sg (graph_accesses g e) && lock_order_ok g e,
+          map (fun b => (b, nth b ls None)) (firstn 8 (bad_nodes_from ls 0 g)),
+          firstn 12 (conflicts_idx sk sg g e),
+          undisciplined sk sg (graph_accesses g e),
+          firstn 8 (order_bad_from (infer_ranks g e) ls 0 g))) services.
